@@ -169,7 +169,7 @@ theorem pendingFromLive_spec (src : ENode) {buf : List Ev} {i : Nat} (ref : Opti
     obtain ⟨fuel, rfl⟩ : ∃ f, fuel = f + 1 := ⟨fuel - 1, by omega⟩
     simp only [eflatten, List.cons_append, List.nil_append] at h
     simp only [sourceEntries_scalar, pendingFromLive, peek_cons ref h, next_cons ref h, eflatten]
-    by_cases hn : scalarIsNullish v st = true
+    by_cases hn : mergeScalarIsNull v st tag = true
     · simp only [hn, if_true]
       exact ⟨[], by simp, PRel.nil⟩
     · simp [hn]
